@@ -20,26 +20,24 @@
 #include "QXmppTrustLevel.h"
 extern "C" void vp_c18_limit(bool ok);   // c18_env.c: ASSERT(ok, "..."), ASSUME(ok)
 
-extern "C" unsigned vp_c18_jid_code(const QString *s);      // unit of a 1-unit model string; 0 for a model string of another length; C18_UNKNOWN otherwise
+extern "C" unsigned vp_c18_jid_code(const QString *s);      // 0 = empty, unit of a 1-unit model string, C18_UNKNOWN otherwise
 extern "C" unsigned vp_c18_key_code(const QByteArray *s);   // same for byte arrays
 #define C18_UNKNOWN 0xFFFFFFFFu
 extern "C" void vp_c18_empty_str(QString *out);
 extern "C" void vp_c18_empty_bytes(QByteArray *out);
-// equality of keys / values: strings built by the string model are compared through their codes (two 1-unit strings are equal iff
-// their units are equal; a 1-unit string never equals a string of another length); two model strings that are both not 1 unit
-// long go through the real operator==; strings that do not come from the string model are a model limit (flagged)
+// equality of keys / values through their codes: exact for empty and 1-unit strings; anything else in these containers is a model
+// limit (flagged, inconclusive).  The generic operator== of the string model is avoided on purpose: symex also evaluates it on the
+// infeasible alternatives of merged pointers, where it walks mistyped blocks up to the model loop bound.
 static inline bool vpEqS(const QString &a, const QString &b)
 {
     unsigned x = vp_c18_jid_code(&a), y = vp_c18_jid_code(&b);
-    vp_c18_limit(x != C18_UNKNOWN && y != C18_UNKNOWN);   // keys of these containers are built by the string model
-    if (x == 0 && y == 0) return a == b;
+    vp_c18_limit(x != C18_UNKNOWN && y != C18_UNKNOWN);   // keys of these containers are universe elements (1 unit) or empty
     return x == y;
 }
 static inline bool vpEqB(const QByteArray &a, const QByteArray &b)
 {
     unsigned x = vp_c18_key_code(&a), y = vp_c18_key_code(&b);
     vp_c18_limit(x != C18_UNKNOWN && y != C18_UNKNOWN);
-    if (x == 0 && y == 0) return a == b;
     return x == y;
 }
 #ifndef MH_CAP
